@@ -455,7 +455,7 @@ RULES.append(("C11.i", "must-pass-through: no path around the effects this prope
 
 def rule_commit(ctx):
     from . import mustpass
-    for g, floor in [('throw', 8)]:
+    for g, floor in [('throw', 8), ('ports', 80)]:
         mustpass.commit_group(ctx, g, floor)
 
 
